@@ -243,7 +243,7 @@ class Check(core.PropertyCheck):
 
     def model_runs(self, ctx):
         self._seed = ctx.seed
-        return [ctx.model_check(self.MODEL, self.model_constants(ctx.tier), dump=True)]
+        return [ctx.model_check(self.MODEL, self.model_constants(ctx.tier), dump=True, timeout=900)]
 
     def scenarios(self, ctx, models):
         g = models[0].graph
